@@ -457,6 +457,10 @@ class C2Profile(ConfigBlock):
 
         for setting, value in config.settings_by_index.items():
             logger.debug(f"{setting} -> {value}")
+            if isinstance(value, str):
+                # text taken from the configuration is data, not profile syntax: hand it to value_to_string as bytes
+                # so that backslashes (and everything else) are escaped the way transform arguments are
+                value = value.encode("latin-1")
             if setting == BeaconSetting.SETTING_SLEEPTIME:
                 profile.set_option("sleeptime", value)
             elif setting == BeaconSetting.SETTING_MAXGET:
@@ -467,7 +471,7 @@ class C2Profile(ConfigBlock):
             elif setting == BeaconSetting.SETTING_DOMAINS:
                 uris = ", ".join(uri for uri in config.uris if uri is not None)
                 if uris:
-                    http_get.set_option("uri", uris)
+                    http_get.set_option("uri", uris.encode("latin-1"))
             elif setting == BeaconSetting.SETTING_SPAWNTO:
                 # profile.set_option("spawnto", value)
                 # deprecated
